@@ -115,6 +115,9 @@ func NewMonitor(keep bool) *Monitor {
 	return &Monitor{Keep: keep, open: map[int64]string{}, written: map[string]int64{}}
 }
 
+// Tick returns the next value of the logical clock shared with the event sequence numbers.
+func (m *Monitor) Tick() int64 { return m.seq.Add(1) }
+
 // Reset clears the recorded state (not the hooks).
 func (m *Monitor) Reset() {
 	m.mu.Lock()
